@@ -193,6 +193,10 @@ pub fn core_fingerprint(w: &World) -> String {
     let now = w.now_ms();
     let mut s = String::new();
     let _ = write!(s, "t{now}|");
+    if w.starve_next_poll {
+        // (an armed budget-starved poll is state: the next poll behaves differently)
+        let _ = write!(s, "starve|");
+    }
     // rank of first poll among live callers (FIFO queues of tokio's semaphore / mutex)
     let mut order: Vec<(u64, usize)> = w
         .callers
